@@ -27,13 +27,13 @@ CHECKS = {
  "C15": dict(tech="error-handling idiom rule on read sites, def-use of the sequence initialiser to a record-decoding function, field-coverage effect rule, write-order dominance",
              text="Decides torn-tail handling at both reads of replay, sequence continuation from decoded log contents, checksum field coverage (one known finding: sequence not covered) and append's write order. Byte-level bincode behaviour is not decided.", ref="§5 C15"),
  "C16": dict(tech="dominance (log-before-data) and must-pass-through (every path append -> Ok meets a storage write or the not-found branch of a storage read) over MIR CFGs; call-graph fact that recover never replays the log",
-             text="Decides that every acknowledged entry kind has a storage effect on every path (necessary because recovery reads storage only) and that the log write precedes the storage write. Value equality of recovered entities is not decided.", ref="§5 C16"),
+             text="Decides that every acknowledged entry kind has a storage effect on every path (necessary because recovery reads storage only) that the log write precedes the storage write, and that no Ok is constructed before the append. Value equality of recovered entities is not decided.", ref="§5 C16"),
  "C18": dict(tech="lock-scope rule (quota check and increment inside one write-guard live range of one function), dominance over I/O, release on error exits, assign-vs-add classification of usage writes",
              text="Decides the race clause for every interleaving: check and count cannot be separated by another writer because they share one critical section; reservation precedes I/O and is released on failure; recovery assigns usage.", ref="§5 C18"),
  "C14": dict(tech="must-pass-through / dominance over the CFG of persist_snapshot with path-role classification of std::fs calls (every CFG edge between effect calls is a crash point); branch separation of the persist error; single-flag path refinement for the boot gate",
              text="Decides the crash clause on every path of persist_snapshot (no early destruction, write->fsync->rename->dir fsync->marker->fsyncs), that restore needs both artefacts, that a persist failure is not acknowledged, plus the boot-restore and cumulativeness clauses (two known findings).", ref="§5 C14"),
  "C19": dict(tech="call-graph reachability matrix (front end x mutation kind) to persistence functions with a storage effect; boot path reachability",
-             text="Decides a necessary condition per cell: without a path from the endpoint's write branch to a persistence call with a storage effect, an acknowledged write of that kind cannot survive a restart. Ten cells fail today (known findings).", ref="§5 C19"),
+             text="Decides a necessary condition per cell: without a path from the endpoint's write branch to a persistence call with a storage effect, an acknowledged write of that kind cannot survive a restart. Ten cells fail today (known findings). Also decides that every entity value of the result rows reaches its persist call and that a failed persist call is never acknowledged.", ref="§5 C19"),
  "C32": dict(tech="HIR match-arm facts (variant -> callee sets) for the state machine, shared must-pass storage-effect rule (C16), CHA reachability for nondeterminism sources, must-pass in RaftNode::write",
              text="Decides the wiring of each replicated request kind to its own persistence function with a storage effect, error surfacing, determinism of apply (no RNG/env/clock outside entity timestamps) and apply-before-acknowledge.", ref="§5 C32"),
  "C06": dict(tech="transitive field write/read effects over the call graph (mutator kind table), representation-completeness of deleting mutators vs creators/compaction, raw-handle bypass inventory; closure-predicate analysis of adjacency removals (by relationship id), dominance of endpoint liveness tests over adjacency writes, per-function field-read coherence of tier pairs",
@@ -51,7 +51,7 @@ CHECKS = {
  "C11": dict(tech="T-PAIR matrix on the constraint index, order of lookup vs writes in set_node_property, use-def check for discarded Results of constraint-checking writes in the executor; mutation-point analysis (no error exit after a mutation in a store mutator); dominance of registration over backfill; gain-side obligations per mutator kind; reachability of the release from both sides of the null test",
              text="Decides that each way a node gives up a constrained value releases it, that the check precedes the writes, that each way a node starts to hold one (SET, label add) checks and registers it, that a null write releases, that a constraint is registered before its backfill, that a refused write leaves index and node untouched (validate-then-mutate), and that write operators do not swallow the violation.", ref="§5 C11"),
  "C28": dict(tech="T-PAIR staleness matrix over edge/property mutators, field-effect check of the stale fallback, accessor inventory of planner-side users",
-             text="Decides completeness of staleness marking and measure propagation over the mutator table and that rewrites see only usable entries. Encodings and roll-up arithmetic are not decided.", ref="§5 C28"),
+             text="Decides completeness of staleness marking and measure propagation over the mutator table that no skip of a measure write depends on the value written, and that rewrites see only usable entries. Encodings and roll-up arithmetic are not decided.", ref="§5 C28"),
  "C29": dict(tech="T-PAIR matrix on the vector index, field-read effect of the declared metric, sibling liveness-validation rule between index-consuming operators",
              text="Decides which mutators keep the vector index current (none remove: five known findings), whether the declared metric is used at all (known finding) and that the consumer validates hits (fixed). Ranking and recall are not decided.", ref="§5 C29"),
  "C01": dict(tech="branch-local callee classification in the multi-label scan, planner site rules (labels passed, residual kept), HIR arm sibling comparison of the six evaluator copies with a frozen, condition-checked exception table; representation-invariant rule for flag-selected accumulators (sum)",
@@ -65,9 +65,9 @@ CHECKS = {
  "C35": dict(tech="HIR arm facts for every match on Expression::Parameter and for substitute_expr (variant coverage, recursion into Expression-typed children from ADT facts), order of substitution vs planning",
              text="Decides the only ways a parameterised run could silently differ: a defaulting evaluation arm, inexact/non-recursive substitution, or planning before substitution.", ref="§5 C35"),
  "C12": dict(tech="HIR arm facts of the two codec functions (tag literals, constructed variants), identity-op classification of the String arm, def-use of the label argument to create_node*, serde-struct constant flow for record kinds; shared C06/C07 rules",
-             text="Decides agreement of the writer's and reader's tag tables and record kinds, identity decoding of strings, no invented label, one version per exported node, imported labels indexed. Value-level round trip (non-finite floats, __type-keyed maps) is not decided.", ref="§5 C12"),
+             text="Decides agreement of the writer's and reader's tag tables and record kinds, identity decoding of strings, no invented label, one version per exported node, imported labels indexed, both property tiers merged into every node record, an id set that cannot drop ids, and no record field written as a constant. Value-level round trip (non-finite floats, __type-keyed maps) is not decided.", ref="§5 C12"),
  "C13": dict(tech="def-use coverage of every store-mutating call in the import against the rollback's record (created_nodes), transitive write effects to find the mutators, reviewed neutral-effect exception",
-             text="Decides which mutations of a failing import are outside the rollback's reach (eight known findings: merges into existing nodes, edges between pre-existing nodes, hierarchy declarations).", ref="§5 C13"),
+             text="Decides which mutations of a failing import are outside the rollback's reach (eight known findings: merges into existing nodes, edges between pre-existing nodes, hierarchy declarations), and that a read error of the snapshot stream always fails the import.", ref="§5 C13"),
  "C34": dict(tech="CHA call-graph unreachability of unseeded randomness and rayon reductions from every solve() inside the crate, sibling bound-repair rule, guarded-sampling rule (dominating lower<upper comparison over the Range's own operands)",
              text="Decides seed-determinism prerequisites, bound repair in every solver, and that no bounds-derived half-open range is sampled unguarded (fixed). History monotonicity, dominance and fitness consistency are not decided.", ref="§5 C34"),
  "C36": dict(tech="aggregate/arm tables of the three rio wrapper files compared per format and across formats",
